@@ -556,10 +556,42 @@ def _chunk_constants(ctx):
                     call, ast.Call)
             elif isinstance(par, ast.Call) and n in par.args:
                 fn = ast.unparse(par.func).split(".")[-1]
-                ok = fn in CHUNK_PARAM_CALLEES
+                ok = fn in CHUNK_PARAM_CALLEES or fn == "range"
+                if not ok:
+                    # positional argument bound to a chunk-size parameter
+                    # of a repository function
+                    encl = None
+                    for fq_, g_ in prog.funcs.items():
+                        if g_.module is mod and not isinstance(
+                                g_.node, ast.Lambda) and any(
+                                    x is par for x in ast.walk(g_.node)):
+                            encl = g_
+                    if encl is not None:
+                        kind_, tg_ = prog.resolve_call(encl, mod, par)
+                        for q_ in tg_ or ():
+                            g_ = prog.funcs.get(q_) or prog.funcs.get(
+                                q_ + ".__init__")
+                            if g_ is None:
+                                continue
+                            b_ = prog.bind(g_, par)
+                            for k_, v_ in b_.items():
+                                if v_ is n and ("chunk" in k_
+                                                or "batch" in k_):
+                                    ok = True
             elif isinstance(par, ast.Compare) and len(par.ops) == 1 and \
-                    isinstance(par.ops[0], ast.Eq):
-                ok = True  # batch-flush test: counter == chunk size
+                    isinstance(par.ops[0], (ast.Eq, ast.NotEq, ast.Lt,
+                                            ast.LtE, ast.Gt, ast.GtE)):
+                # batch-flush test: counter / len(batch) against the chunk
+                # size only decides when rows are handed on
+                other = par.comparators[0] if par.left is n else par.left
+                ok = isinstance(other, ast.Name) or (
+                    isinstance(other, ast.Call) and isinstance(
+                        other.func, ast.Name) and other.func.id == "len") \
+                    or isinstance(other, (ast.Subscript, ast.Attribute))
+            elif isinstance(par, ast.BinOp) and isinstance(
+                    par.op, ast.Add) and isinstance(
+                        parents.get(id(par)), ast.Slice):
+                ok = True  # x[i:i + chunk size]: hand-written chunking
             fq = mod.name
             ctx.check(ok, "C05e-chunk-constant-use", fq,
                       f"{n.id} used as a chunk size "
